@@ -181,6 +181,8 @@ fn server_received_a_message(
                         world
                             .resource_mut::<SyncTrackerRes>()
                             .host_promotion_in_progress = true;
+                        // the RenetClient of a host that was a client earlier is spent: connect with a fresh one
+                        world.insert_resource(bevy_renet::renet::RenetClient::new(bevy_renet::renet::ConnectionConfig::default()));
                         world.insert_resource(create_client(ip, port));
                     });
                 }
